@@ -11,8 +11,8 @@ sys.path.insert(0, ROOT)
 PARTIAL = {
     "C04": "PARTIAL: sub-claim 'vectorised bin count within 10% of the iterative one' is probed on the real schedulers only (known finding D10 for Jdes<10); "
            "L/K monotonicity is proved for the iterative LTF/LPSD plans and checked by the oracle for the other two schedulers",
-    "C06": "PARTIAL: closed-form calibration bound proved for detrend orders -1 (order 0..2 checked against the reference estimator by the oracle); "
-           "the size of the leakage term rho for the Kaiser window is C12's numeric residual",
+    "C06": "PARTIAL: the calibration bound is proved in closed form for every detrend order (-1, 0, and 1-2 for any basis Q: r = rho + 2 sum_k rho_k); "
+           "how small the leakage terms rho, rho_k are for the Kaiser window is C12's numeric residual (measured, not proved)",
     "C10": "PARTIAL: every functional form, inequality and limit is proved; the sentence 'match the observed spread for Gaussian data' is statistical and only probed (thorough tier, cannot alarm)",
     "C11": "PARTIAL: all formulas proved; 'agree with the analytic deviations for Gaussian noise' is statistical and only probed",
     "C12": "PARTIAL: leakage is reduced by theorem to a bound on the window transform (exact sinusoid response, DFT-even non-negative window, Goertzel at fractional bins); "
